@@ -227,6 +227,17 @@ def run_case(case):
         out["ord_path"] = guarded(only_path)
         out["ord_plain"] = guarded(lambda: {k: [s.id for s in v] for k, v in c.get_ordered_segments_in_groups([gid]).items()})
         out["resolved"] = guarded(lambda: list(c.get_all_segments_in_group(gid)))
+    # several groups in one call (a list of selections; each selection is a list of group ids)
+    def multi(sel):
+        o, cum, pp, pd = c.get_ordered_segments_in_groups(list(sel), include_cumulative_lengths=True, include_path_lengths=True)
+        return [[k, [s.id for s in o[k]], [q(float(x)) for x in cum[k]], [[i, q(float(x))] for i, x in pp[k].items()],
+                 [[i, q(float(x))] for i, x in pd[k].items()]] for k in o.keys()]
+    out["ord_multi"] = [[sel, guarded(lambda sel=sel: multi(sel))] for sel in case.get("multi", [])]
+
+    def multi_cum_only(sel):
+        o, cum = c.get_ordered_segments_in_groups(list(sel), include_cumulative_lengths=True)
+        return [[k, [s.id for s in o[k]], [q(float(x)) for x in cum[k]]] for k in o.keys()]
+    out["ord_multi_cum"] = [[sel, guarded(lambda sel=sel: multi_cum_only(sel))] for sel in case.get("multi", [])]
     return out
 
 
